@@ -1133,3 +1133,50 @@ def m_parse_int_error_display(I, st, inst, args):
         fmt_append(I, st, args[1], msgs[k.v])
         return OK_UNIT
     raise Unsupported("ParseIntError kind %r" % (k,))
+
+
+@model("<std::num::NonZero<*> as std::str::FromStr>::from_str")
+def m_nonzero_from_str(I, st, inst, args):
+    """NonZero::<T>::from_str = T::from_str_radix(s, 10) then reject zero (body not available as MIR in libcore)"""
+    inner = inst.name.split("NonZero<", 1)[1].split(">", 1)[0]
+    cal = I.prog.by_name.get("<%s as std::str::FromStr>::from_str" % inner) or \
+        I.prog.by_name.get("core::num::<impl std::str::FromStr for %s>::from_str" % inner)
+    if cal is None:
+        raise Unsupported("no from_str instance for %s" % inner)
+    rt = I.types[inst.sig[-1]]          # Result<NonZero<T>, ParseIntError>
+    err_t = I.types[rt.adt["variants"][1]["fields"][0]["ty"]]
+    kind_t = I.types[err_t.variant_fields(0)[0]["ty"]]
+    zero_idx = [i for i, v in enumerate(kind_t.adt["variants"]) if v["name"] == "Zero"][0]
+    alts = []
+    for s2, r in I.call_sync(st, cal, [args[0]]):
+        if isinstance(r, PanicExc):
+            alts.append((s2, r))
+            continue
+        if r.v == 1:
+            alts.append((s2, r))
+            continue
+        v = r.f[0]
+        zero_err = Agg(1, (Agg(None, (Agg(zero_idx, ()),)),))
+        okval = Agg(0, (Agg(None, (Agg(None, (v,)),)),))
+        if is_sym(v):
+            isz = I.norm(v == z3.BitVecVal(0, v.size()), None)
+            if isz is True:
+                alts.append((s2, zero_err))
+            elif isz is False:
+                alts.append((s2, okval))
+            else:
+                fz = I.feasible(s2, isz)
+                fnz = I.feasible(s2, z3.Not(isz))
+                if fz and fnz:
+                    s3 = s2.fork()
+                    I.add_pc(s3, isz)
+                    alts.append((s3, zero_err))
+                    I.add_pc(s2, z3.Not(isz))
+                    alts.append((s2, okval))
+                elif fz:
+                    alts.append((s2, zero_err))
+                else:
+                    alts.append((s2, okval))
+        else:
+            alts.append((s2, zero_err if v == 0 else okval))
+    return Forks(alts)
